@@ -201,11 +201,17 @@ stringify(const string &source) {
         break;
 
       case '\'':
-        state ^= S_single_quoted;
+        // A single quote within a string literal does not delimit anything.
+        if ((state & S_double_quoted) == 0) {
+          state ^= S_single_quoted;
+        }
         break;
 
       case '"':
-        state ^= S_double_quoted;
+        // Likewise a double quote within a character literal.
+        if ((state & S_single_quoted) == 0) {
+          state ^= S_double_quoted;
+        }
         result += '\\';
         break;
       }
